@@ -127,6 +127,46 @@ def structural(kind, b, others, cfg):
     return out
 
 
+def scaling(ctx):
+    """'time and memory proportional to the input': well-formed but very large lists (user key with N rights, encapsulation
+    with N entries, structure with N attributes) parsed at two sizes N and 4N; the larger one may take about 4 times longer,
+    not 16 (a duplicate scan, a re-sort or a re-allocation per element makes parsing quadratic although every small input
+    is handled instantly). Parse time is taken from the worker itself (us=), best of three."""
+    import c07, c08
+    gen = subprocess.run([vf.harness_bin('worker'), 'gen'], capture_output=True, text=True).stdout.strip().split('\n')
+    objs = [(l.split(' ')[0], bytes.fromhex(l.split(' ')[1])) for l in gen]
+    sz = vf.CONFIGS['default']['sizes']; c08.SK, c08.PT, c08.DK = sz['SK'], sz['PT'], sz['DK']; c07.PT, c07.CT = sz['PT'], sz['CT']
+    usk = c08.K(next(b for k, b in objs if k == 'USK')); enc = c07.Enc(next(b for k, b in objs if k == 'ENC'))
+    sk = usk.chains[0][1][0]
+    def big_usk(n):
+        t = usk.copy(); t.chains = [(i.to_bytes(4, 'big'), [sk]) for i in range(n)]; return t.build()
+    def big_enc(n):
+        t = enc.copy(); t.es = [(b'', (i.to_bytes(4, 'big') * 8)) for i in range(n)]; t.hyb = 0; return t.build()
+    def big_st(n):
+        o = bytearray(leb(1) + leb(1) + leb(1) + b'D' + leb(0) + leb(n))
+        for i in range(n): o += leb(4) + i.to_bytes(4, 'big').hex()[:4].encode() + leb(i) + leb(0) + leb(0)
+        return bytes(o + leb(n))
+    N1, N2 = (6000, 24000)
+    res = []; bad = []
+    for kind, mk in (('PUSK', big_usk), ('PENC', big_enc), ('PST', big_st)):
+        ts = {}
+        for n in (N1, N2):
+            line = f'{kind} {mk(n).hex()}'; best = None; cls = None
+            for _ in range(3):
+                r = run_worker([line])[0] or 'no answer'
+                f = dict(t.split('=') for t in r.split(' ')[1:] if '=' in t); cls = r.split(' ')[0]
+                if 'us' in f: best = int(f['us']) if best is None else min(best, int(f['us']))
+            ts[n] = (best, cls)
+        (t1, c1), (t2, c2) = ts[N1], ts[N2]
+        res.append(f'{kind}: {N1} elements {t1} us ({c1}), {N2} elements {t2} us ({c2})')
+        if c1 not in ('ok', 'err') or c2 not in ('ok', 'err'): bad.append((kind, f'worker did not answer normally: {c1} / {c2}'))
+        elif t1 is not None and t2 is not None and t2 > 150_000 and t2 > 10 * max(t1, 2000): bad.append((kind, f'parse time grows faster than the input: {N1} elements in {t1} us, {N2} elements in {t2} us'))
+    ctx.evaluations += 18
+    ctx.cov['scaling'] = res
+    ctx.ob('correspondence', f'parse time proportional to the input on large well-formed lists ({N1} vs {N2} elements: user-key rights, encapsulation entries, structure attributes): ' + '; '.join(res), not bad, str(bad))
+    if bad: vf.violation(ctx, f'{bad[0][0][1:]} deserialization: {bad[0][1]}', {'scaling': True, 'kind': bad[0][0], 'sizes': [N1, N2], 'measurements': res})
+
+
 def run(ctx):
     ok = vf.build_harness(ctx, ('default', 'alt'), optional=('alt',)); ok = vf.build_coq(ctx) and ok
     vf.forbidden_scan(ctx); vf.proof_obligations(ctx)
@@ -185,6 +225,7 @@ def run(ctx):
             vf.violation(ctx, f'{w} of a valid {k} serialization: {r}', {'config': cfg, 'kind': k, 'input_hex': m.hex(), 'input_len': len(m), 'mutation': w, 'impl': r, 'violations_total': len(bad)})
         if cfg == 'default': samples = [f'{k} {w} ({len(m)} bytes): {m.hex()[:100]}' for k, w, m in (cases[len(corpus) + 10], cases[len(cases) // 2], cases[-1])]
     ctx.evaluations = total; ctx.traces = total; ctx.hist = hist; ctx.samples = samples
+    if not ctx.violations: scaling(ctx)
     ctx.nontrivial = {k for k in hist}
     ctx.rule = ('for valid serializations of all six types (master key, public key, classic and hybridized user keys / encapsulations / headers, structures): every truncation, every single-byte corruption, '
                 'every byte position overwritten by LEB128 boundary values up to 2^64-1 and by over-long encodings, trailing bytes, random strings; each input deserialized in an isolated worker (counting allocator: '
@@ -197,6 +238,11 @@ def run(ctx):
 
 def replay(ctx, path):
     rep = json.load(open(path))
+    if rep.get('scaling'):
+        vf.build_harness(ctx); scaling(ctx)
+        bad = [o for o in ctx.obligations if not o['ok']]
+        for o in bad: print(o['detail'])
+        return 1 if bad else 0
     vf.build_harness(ctx, (rep.get('config', 'default'),))
     r = run_worker([f"{rep['kind']} {rep['input_hex']}"], rep.get('config', 'default'))
     print(r[0])
